@@ -114,6 +114,18 @@ fn family_vq(args: &Args) -> i32 {
                 jobs.push(VqParams { n, indirect: ind, event_idx: ev, ap: false, legacy: false,
                                      ops: if thorough { 280_000 } else { 150_000 }, seed, mode: "wrap".into() });
             }
+        } else if mode == "notify" {
+            let reps = if thorough { 6 } else { 1 };
+            for _ in 0..reps {
+                for n in [1usize, 2, 4, 8, 16] {
+                    for ev in [true, false] {
+                        for ind in [false, true] {
+                            seed += 1;
+                            jobs.push(VqParams { n, indirect: ind, event_idx: ev, ap: false, legacy: false, ops: 1500, seed, mode: "notify".into() });
+                        }
+                    }
+                }
+            }
         } else {
             let sizes: &[usize] = if thorough { &anyq::SIZES } else { &[1, 2, 4, 8, 16, 64, 256, 1024, 32768] };
             let reps = if thorough { 4 } else { 1 };
